@@ -13,7 +13,11 @@ from . import guesser, scratch
 WORDS = ["password", "monkey", "dragon", "love", "abc", "iloveyou", "cat", "a", "test", "shadow", "blue", "pass"]
 CAPWORDS = ["Password", "MONKEY", "dRagon", "LoVe", "Abc", "TEST", "passWORD"]
 NONASCII = ["пароль", "λόγος", "señor", "é", "über", "ñandú", "мир", "Привет", "\u0393amma", "\u0398eta", "\u03a9mega", "P\u0393x", "\u01c4amija", "\u01c7ubav", "\u01caegos", "\u01f1eta",
-            "\u1c9e\u10d0\u10e0\u10dd\u10da\u10d8", "\u1c9b\u10d4"]
+            "\u1c9e\u10d0\u10e0\u10dd\u10da\u10d8", "\u1c9b\u10d4",
+            # spellings that are not in Unicode normal form C (a macOS export, a compatibility code point): the trainer
+            # and the guesser work on code points, so these are passwords of their own
+            "cafe\u0301", "\u1112\u1161\u11ab\u1100\u1173\u11af", "\u1f71\u03bb\u03c6\u03b1", "\uf900\uf901\u8c48\u66f4",
+            "pass\u037e", "a\u0387b", "\u1100\u1161\u1102\u1161", "\u03b1\u0301\u03bb\u03c6\u03b1"]
 DIGS = ["1", "12", "123", "1234", "2019", "1987", "007", "0", "99", "2000", "19", "20191"]
 SYMS = ["!", "!!", "@", "#", "$$", ".", "-", "_", " ", "  ", "?!"]
 CASED_SYMBOLS = ["Ⓐ", "Ⓩ", "Ⅷ", "Ⅻ", "ⓐ", "ⅷ", "★", "②"]     # circled capitals / Roman numerals: not letters, yet str.lower() changes them
